@@ -339,6 +339,30 @@ pub struct Ctx {
 }
 
 static PROGRESS: AtomicU64 = AtomicU64::new(0);
+/// Failures seen (not yet shrunk / reported) by worker threads: if a later case hangs and the watchdog
+/// has to end the process, these are still reported as violations instead of being lost.
+static PENDING_FAILURES: Mutex<Vec<ReplayFile>> = Mutex::new(Vec::new());
+
+fn flush_pending_on_watchdog() -> bool {
+    let pending = PENDING_FAILURES.lock().map(|g| g.clone()).unwrap_or_default();
+    if pending.is_empty() {
+        return false;
+    }
+    let mut seen = HashSet::new();
+    for rf in pending {
+        if !seen.insert((rf.sub.clone(), rf.sig.clone())) {
+            continue;
+        }
+        let dir = verif_root().join("replays").join(&rf.property);
+        let _ = std::fs::create_dir_all(&dir);
+        let text = serde_json::to_string_pretty(&rf).unwrap_or_default();
+        let path = dir.join(format!("{}-{:016x}.json", rf.sub, fnv1a(text.as_bytes())));
+        let _ = std::fs::write(&path, text);
+        println!("  violation sig={} (unshrunk: a later case hung before shrinking finished)", rf.sig);
+        println!("VIOLATION property={} replay={}", rf.property, path.display());
+    }
+    true
+}
 static WATCHDOG: Once = Once::new();
 static WATCHDOG_WHERE: Mutex<String> = Mutex::new(String::new());
 static FINISHED: AtomicBool = AtomicBool::new(false);
@@ -366,6 +390,9 @@ fn start_watchdog() {
                             "INCONCLUSIVE: watchdog, no case completed for {} s in {}",
                             still, w
                         );
+                        if flush_pending_on_watchdog() {
+                            std::process::exit(1);
+                        }
                         std::process::exit(2);
                     }
                 } else {
@@ -548,7 +575,20 @@ impl Ctx {
                 }
             };
             self.replayed += 1;
-            let (v, _known) = self.eval(f, &case);
+            // Engines with internal nondeterminism (hash-map iteration order inside the system under
+            // test) may need several executions to reproduce: a replay fails if any execution fails.
+            let repeats: u32 = std::env::var("VERIF_REPLAY_REPEAT")
+                .ok()
+                .and_then(|s| s.parse().ok())
+                .unwrap_or(if self.is_replay() { 16 } else { 2 });
+            let mut v = Verdict::new();
+            for _ in 0..repeats.max(1) {
+                let (vi, _known) = self.eval(f, &case);
+                if !vi.failures.is_empty() {
+                    v = vi;
+                    break;
+                }
+            }
             if let Some(fl) = v.failures.first() {
                 println!(
                     "replay {}: FAIL sig={} {}",
@@ -690,6 +730,18 @@ impl Ctx {
             }
             if let Some(fl) = v.failures.first() {
                 *first.borrow_mut() = Some(fl.sig.clone());
+                if let Ok(mut p) = PENDING_FAILURES.lock() {
+                    if p.len() < 64 {
+                        p.push(ReplayFile {
+                            property: self.id.clone(),
+                            sub: sub.to_string(),
+                            seed: self.seed,
+                            sig: fl.sig.clone(),
+                            detail: fl.detail.clone(),
+                            case: serde_json::to_value(&case).unwrap_or(serde_json::Value::Null),
+                        });
+                    }
+                }
                 Err(TestCaseError::fail(fl.sig.clone()))
             } else {
                 Ok(())
